@@ -339,6 +339,11 @@ fn render_sentence(s: &AisSentence) -> String {
 fn render_state(p: &AisParser) -> String {
     let d = format!("{:?}", p);
     // AisParser { message_id: Some(1), fragment_number: 1, data: [53, 51] }
+    // The state is private: when its Debug text does not have this shape (a different representation), it is
+    // reported as not observable and the check falls back on behaviour alone.
+    if !(d.contains("message_id: ") && d.contains("fragment_number: ") && d.contains("data: [")) {
+        return "st=?".to_string();
+    }
     let id = {
         let a = d.find("message_id: ").map(|i| i + 12).unwrap_or(0);
         let rest = &d[a..];
@@ -517,6 +522,8 @@ fn main() {
     let stdin = io::stdin();
     let stdout = io::stdout();
     let mut out = io::BufWriter::new(stdout.lock());
+    // VERIF_FLUSH: flush after every answer, so that the operation that kills the process can be identified
+    let flush_each = std::env::var_os("VERIF_FLUSH").is_some();
     let mut slots: Vec<AisParser> = Vec::new();
     // every slot has a twin built with `Default::default()` instead of `AisParser::new()`; both are fed every
     // line, and an answer that differs between them is reported as `ctor-mismatch`
@@ -607,6 +614,9 @@ fn main() {
             _ => "bad-op".to_string(),
         };
         writeln!(out, "{}", ans).unwrap();
+        if flush_each {
+            out.flush().unwrap();
+        }
     }
     out.flush().unwrap();
 }
